@@ -423,7 +423,8 @@ func (w *world) source(op Op) string {
 		body := ""
 		switch op.Qual {
 		case "around":
-			body = fmt.Sprintf(`(sim-emit "in%d") (let ((r (call-next-method))) (sim-emit "out%d") r)`, op.ID, op.ID)
+			// next-method-p must agree with what call-next-method then does
+			body = fmt.Sprintf(`(sim-emit (if (next-method-p) "in%d" "in%d-no-next")) (let ((r (call-next-method))) (sim-emit "out%d") r)`, op.ID, op.ID, op.ID)
 		case "before":
 			body = fmt.Sprintf(`(sim-emit "b%d") 'ignored`, op.ID)
 		case "after":
